@@ -28,6 +28,7 @@ pub fn gen_case(seed: u64, focus: &str) -> Value {
         id_prefix: String::new(),
         ties: g.chance(2, 3),
         sentinels: false,
+        nonzero_diagonal: false,
     };
     let (instance, summary) = gen_instance(&mut g, &opts);
     let mut h = rng.fork(2);
